@@ -250,22 +250,23 @@ Definition get_sql (o : ropts) (fd : func_desc) (args : list string) : res strin
       Ok (if ro_with_alias o then fmt_alias s1 (fd_alias fd) (ro_quote o) (ro_alias_quote o) (ro_as_keyword o) else s1)
   end.
 
-(* CustomFunction.__call__ : without declared params the call arguments are ignored;
+(* CustomFunction.__call__ : without declared params the call arguments are passed through;
    with declared params a different count raises FunctionException *)
 Definition custom_call (params : option (list string)) (args : list string) : res (list string) :=
   match params with
-  | None => Ok []
+  | None => Ok args
   | Some ps => if Nat.eqb (List.length args) (List.length ps) then Ok args else Err "FunctionException"
   end.
 
-(* WindowFrameAnalyticFunction._set_frame_and_bounds (bounds are Edge objects or CURRENT_ROW: always truthy) *)
+(* WindowFrameAnalyticFunction._set_frame_and_bounds (bounds are Edge objects or CURRENT_ROW: always truthy);
+   a frame switches the OVER clause on *)
 Definition set_frame (fd : func_desc) (k : fkind) (b : bound) (ab : option bound) : res func_desc :=
   match fd_frame fd with
   | Some _ => Err "AttributeError"
   | None =>
       Ok {| fd_name := fd_name fd; fd_schema := fd_schema fd; fd_alias := fd_alias fd; fd_special := fd_special fd;
             fd_distinct := fd_distinct fd; fd_filters := fd_filters fd; fd_include_filter := fd_include_filter fd;
-            fd_partition := fd_partition fd; fd_orderbys := fd_orderbys fd; fd_include_over := fd_include_over fd;
+            fd_partition := fd_partition fd; fd_orderbys := fd_orderbys fd; fd_include_over := true;
             fd_frame := Some (k, b, ab); fd_bare := fd_bare fd |}
   end.
 
@@ -490,8 +491,8 @@ Definition texts_ok (fd : func_desc) : bool :=
   && forallb filter_ok (fd_filters fd) && forallb part_ok (fd_partition fd) && forallb ord_ok (fd_orderbys fd)
   && negb (fd_bare fd).
 
-(* the clause combinations that render: a requested FILTER has at least one criterion,
-   a frame is only set together with over()/orderby() *)
+(* the states the clause methods can reach when every filter() call that passes criteria passes at least one
+   non-empty criterion: a requested FILTER has at least one criterion, a frame comes with the OVER clause *)
 Definition combo_ok (fd : func_desc) : bool :=
   (negb (fd_include_filter fd) || match fd_filters fd with [] => false | _ => true end)
   && (negb (is_some (fd_frame fd)) || fd_include_over fd).
